@@ -28,7 +28,7 @@ fn finish_item(mut base: Base, tape: &[u8]) -> Item {
         nt.push(if score >= 2 { Some(h ^ ui as u64) } else { None });
         labels.push(format!("consts op={}", u.op_name));
     }
-    Item { base, expects, tape: tape.to_vec(), nt, labels }
+    Item { base, expects, tape: tape.to_vec(), nt, labels, depends: vec![] }
 }
 
 /// Build the items of one tape: the case itself, optionally split per operation (self-contained
